@@ -6,7 +6,7 @@
 use super::c17::run_top;
 use super::{draw_cpus, draw_sched};
 use crate::core::{Lane, Scenario, Stats, Tier, Violation};
-use crate::exec::{run_exec, Conf};
+use crate::exec::{run_exec, with_cpu, Conf};
 use crate::ops::{diff_dg, observe, TOp};
 use crate::reps::{guard, Rep};
 use graaf::{
@@ -15,6 +15,7 @@ use graaf::{
 };
 use serde::{Deserialize, Serialize};
 use vmodel::dg::Dg;
+use vmodel::gen::draw_cpu;
 use vmodel::rng::Rng;
 
 pub struct C14;
@@ -72,6 +73,18 @@ pub fn grid(tier: Tier) -> Vec<Body> {
     for m in 0..=lim {
         for n in 0..=(lim - m) {
             g.push(Body { gen: "biclique".into(), a: m, b: n });
+        }
+    }
+    // far above the enumerated range, like the other generators: totals on and around word multiples and
+    // powers of two (and the odd ones between), split evenly, unevenly and with a part of one word
+    for total in [177usize, 178, 179, 181, 191, 192, 193, 194, 209, 255, 256, 257, 320, 384, 511, 512, 513] {
+        let mut ms = vec![1, 2, 63, 64, 65, total / 3, total / 2, total.div_ceil(2), total - 64, total - 1];
+        ms.sort_unstable();
+        ms.dedup();
+        for m in ms {
+            if m >= 1 && m < total {
+                g.push(Body { gen: "biclique".into(), a: m, b: total - m });
+            }
         }
     }
     for gen in ["trivial", "claw", "utility"] {
@@ -188,7 +201,12 @@ impl Lane for C14 {
                 }
             }
         } else {
-            confs.push(Conf { cpu: Some(1), sched: draw_sched(rng, 1), trace: None });
+            // the sequential generators are called once per CPU count (the ambient execution schedules
+            // whatever workers a generator may start): one CPU, the machine's 16, two drawn counts
+            let rows = (body.a + body.b).max(1);
+            for cpu in [Some(1), Some(16), Some(rng.range(2, 15)), draw_cpu(rng, rows)] {
+                confs.push(Conf { cpu, sched: draw_sched(rng, 1), trace: None });
+            }
         }
         Scenario { body, confs }
     }
@@ -211,12 +229,25 @@ impl Lane for C14 {
                         format!("order {order} must panic but returned a digraph of order {}", o.order)));
                 }
             }
-        } else {
-            check_rep::<AdjacencyList>(b, st, &mut vs);
         }
-        check_rep::<AdjacencyMap>(b, st, &mut vs);
-        check_rep::<AdjacencyMatrix>(b, st, &mut vs);
-        check_rep::<EdgeList>(b, st, &mut vs);
+        let mut seen = Vec::new();
+        for conf in &sc.confs {
+            if seen.contains(&conf.cpu) || (b.gen == "complete" && !seen.is_empty()) {
+                continue;
+            }
+            seen.push(conf.cpu);
+            with_cpu(conf.cpu, || {
+                if b.gen != "complete" {
+                    check_rep::<AdjacencyList>(b, st, &mut vs);
+                }
+                check_rep::<AdjacencyMap>(b, st, &mut vs);
+                check_rep::<AdjacencyMatrix>(b, st, &mut vs);
+                check_rep::<EdgeList>(b, st, &mut vs);
+            });
+            if !vs.is_empty() {
+                break;
+            }
+        }
         // distinct non-trivial cases of the sequential part: the grid cell itself
         if b.gen != "complete" && admissible(b) && closed_form(b).size() > 0 {
             st.case(&[vmodel::rng::digest(serde_json::to_string(b).unwrap().as_bytes())]);
